@@ -108,6 +108,10 @@ pub struct Site {
     /// probe magic (the body starts with `i32.const magic; drop`), 0 if none
     pub magic: i32,
     pub tag: Option<Vec<u8>>,
+    /// not an injection but `clear_instr_at(loc, mode)`: whatever was injected at this instruction in
+    /// this mode so far is taken back (body empty, magic 0)
+    #[serde(default)]
+    pub clear: bool,
 }
 
 #[derive(Clone, Copy, Debug, PartialEq, Eq, Hash, Serialize, Deserialize)]
@@ -1185,6 +1189,7 @@ impl Model {
                 let f = *func;
                 let mut accepted = vec![];
                 let mut bodies = vec![];
+                let mut cleared: Vec<(u32, Mode)> = vec![];
                 {
                     let l = self.local_mut(f).unwrap();
                     for s in sites {
@@ -1201,6 +1206,20 @@ impl Model {
                         // the op to the model, so whatever arrives here was accepted and must be
                         // reflected (C22).
                         let _ = applicable;
+                        if s.clear {
+                            match s.mode {
+                                Mode::Before => mi.before = Default::default(),
+                                Mode::After => mi.after = Default::default(),
+                                Mode::Alternate => mi.alternate = None,
+                                Mode::SemanticAfter => mi.sem_after = Default::default(),
+                                Mode::BlockEntry => mi.block_entry = Default::default(),
+                                Mode::BlockExit => mi.block_exit = Default::default(),
+                                Mode::BlockAlt => mi.block_alt = None,
+                                _ => {}
+                            }
+                            cleared.push((s.instr, s.mode));
+                            continue;
+                        }
                         let push = |lst: &mut ModeList| {
                             lst.ins.extend(s.body.iter().cloned());
                             if let Some(t) = &s.tag {
@@ -1232,6 +1251,10 @@ impl Model {
                 // replay in order: an empty (block-)alternate replaces whatever replacement was
                 // requested before it
                 self.probe_bodies.extend(bodies);
+                // (clears and injections of one op never touch the same list: the generator keeps them apart)
+                for (i, m) in cleared {
+                    self.accepted_probes.retain(|p| !(p.0 == f && p.4 == i && (p.2 == m || (m == Mode::Alternate && p.2 == Mode::EmptyAlternate) || (m == Mode::BlockAlt && p.2 == Mode::EmptyBlockAlt))));
+                }
                 for a in accepted {
                     let wiped = match a.2 {
                         Mode::EmptyAlternate => Some(Mode::Alternate),
